@@ -25,6 +25,7 @@ pub struct SelectionEngine {
     rt: tokio::runtime::Runtime,
     key: u64,
     n: u64,
+    timeout_ms: u64,
     focus: String,
     c_none: u64,
     c_gated: u64,
@@ -34,11 +35,10 @@ pub struct SelectionEngine {
     c_guard_off_clear: u64,
 }
 
-const TIMEOUT_MS: u64 = 5000;
 
 impl SelectionEngine {
     pub fn new() -> Self {
-        Self { rt: rt(), key: 0, n: 0, focus: "all".into(), c_none: 0, c_gated: 0, c_hyst_hold: 0, c_override: 0, c_capskip: 0, c_guard_off_clear: 0 }
+        Self { rt: rt(), key: 0, n: 0, timeout_ms: 5000, focus: "all".into(), c_none: 0, c_gated: 0, c_hyst_hold: 0, c_override: 0, c_capskip: 0, c_guard_off_clear: 0 }
     }
 
     fn pick(&mut self, n: u64) -> u64 {
@@ -66,7 +66,7 @@ impl SelectionEngine {
         let fresh_age = if held { 400 + self.pick(600) } else { self.pick(200) };
         if conn {
             c.reconnection.connection_established_ms = now - 60_000;
-            c.last_received = Some(if to { now - TIMEOUT_MS - self.pick(3) * 1000 } else { now - fresh_age });
+            c.last_received = Some(if to { now - self.timeout_ms - self.pick(3) * 1000 } else { now - fresh_age });
         } else {
             match (to, self.pick(3)) {
                 (false, 0) if !held => {
@@ -91,10 +91,12 @@ impl SelectionEngine {
                 }
                 (true, _) => {
                     c.reconnection.connection_established_ms = now - 60_000;
-                    c.last_received = Some(now - TIMEOUT_MS);
+                    c.last_received = Some(now - self.timeout_ms);
                 }
             }
         }
+        // the mirrored timeout the link carries from an earlier pass is stale
+        c.verif_set_conn_timeout_ms([1000u64, 5000, 60_000][self.pick(3) as usize]);
         // --- in-flight level / cap
         let capx = getb(k, "capx");
         let base = geti(k, "base") as i32;
@@ -171,14 +173,14 @@ impl SelectionEngine {
     }
 }
 
-fn cfg_of(cfg: &Value) -> ConfigSnapshot {
+fn cfg_of(cfg: &Value, timeout_ms: u64) -> ConfigSnapshot {
     ConfigSnapshot {
         mode: if getb(cfg, "classic") { SchedulingMode::Classic } else { SchedulingMode::Enhanced },
         quality_enabled: getb(cfg, "quality"),
         stall_deselect: getb(cfg, "guard"),
         stall_min_in_flight: 1_000, // flags come from the stamped history, not from load
         stall_ack_stale_ms: 3_000,
-        conn_timeout_ms: TIMEOUT_MS,
+        conn_timeout_ms: timeout_ms,
     }
 }
 
@@ -198,7 +200,11 @@ impl Engine for SelectionEngine {
         let now = T0 + 500_000;
         srtla_core::verif::set_clock(Some(now));
         let cfg = &ev["cfg"];
-        let snap = cfg_of(cfg);
+        // every timeout setting of the clamped range, with a stale mirrored value on the links
+        self.n = 1_000;
+        self.timeout_ms = [1000u64, 5000, 5000, 12_000, 60_000][self.pick(5) as usize];
+        self.n = 0;
+        let snap = cfg_of(cfg, self.timeout_ms);
         let links = ev["links"].as_array().unwrap();
         let qden = ev.get("qden").and_then(Value::as_f64).unwrap_or(100.0);
         let cden = ev.get("cden").and_then(Value::as_f64).unwrap_or(10.0);
